@@ -164,3 +164,46 @@ Definition approp_special_ok (needed : bool) (refs : list (Z * bool)) (outs : li
 Definition accept_approp (pr : params) (h0 h1 needed : bool) (amount : Z)
                          (outs : list outp) (refs : list (Z * bool)) : bool :=
   approp_outputs_ok pr h0 h1 outs && approp_special_ok needed refs (map o_val outs) amount.
+
+(* ---- from inputs to references ---- *)
+
+(* an input: the outpoint it names (an id; [invalid_op] stands for the
+   all-zero txid with index 65535) and its Sequence field *)
+Record inp := I { i_op : Z; i_seq : Z }.
+Definition invalid_op : Z := -1.
+
+Definition memz (x : Z) (l : list Z) : bool := existsb (Z.eqb x) l.
+
+(* the duplicate loop of DefaultChecker.CheckTransactionInput: the set is keyed
+   by input.ReferKey(), i.e. by the outpoint only *)
+Fixpoint nodup_ops (seen : list Z) (ins : list inp) : bool :=
+  match ins with
+  | [] => true
+  | i :: r => negb (memz (i_op i) seen) && nodup_ops (i_op i :: seen) r
+  end.
+
+(* DefaultChecker.CheckTransactionInput (also ActivateProducer's above
+   NFTStartHeight when it has inputs, SideChainPow's with inputs) *)
+Definition check_inputs (ins : list inp) : bool :=
+  (1 <=? Z.of_nat (length ins)) &&
+  forallb (fun i => negb (i_op i =? invalid_op)) ins &&
+  nodup_ops [] ins.
+
+(* UTXOCache.GetTxReference: one map entry per input, carrying the value of the
+   output its outpoint names in the unspent set [utxo] *)
+Definition references (utxo : Z -> Z) (ins : list inp) : list Z :=
+  map (fun i => utxo (i_op i)) ins.
+
+(* the outpoints a transaction spends: each one once, however often it is named *)
+Fixpoint dedup_from (seen : list Z) (l : list Z) : list Z :=
+  match l with
+  | [] => []
+  | x :: r => if memz x seen then dedup_from seen r else x :: dedup_from (x :: seen) r
+  end.
+Definition spent_outpoints (ins : list inp) : list Z := dedup_from [] (map i_op ins).
+Definition spent_total (utxo : Z -> Z) (ins : list inp) : Z :=
+  exact_sum (map utxo (spent_outpoints ins)).
+
+(* the composition with the input check in front *)
+Definition accept_tx (k : kind) (pr : params) (utxo : Z -> Z) (ins : list inp) (outs : list outp) : bool :=
+  check_inputs ins && accept k pr false outs (references utxo ins).
